@@ -587,7 +587,7 @@ def c07(run):
                 "iter_derivatives) followed by one of 140 target constructions sensitive to id order; the harness then "
                 "re-issues every earlier construction and the target, compares identities, queries membership and "
                 "emptiness; each history runs on a fresh ReManager, on the thread-local manager in a fresh thread and "
-                "on a thread-local manager that served earlier histories (quick: a seeded 1/8 sample of the 38220 "
+                "on a thread-local manager that served earlier histories (quick: a seeded 1/12 sample of the generated "
                 "histories; thorough: all, plus prefixes of 3 by TLC simulation); plus long seeded random histories "
                 "(60-150 calls on one manager); non-trivial = distinct history with >= 8 constructor calls")
     run.assumptions = ["identities are addresses of the returned &'static RE, renumbered 1,2,3,... by the harness",
@@ -604,8 +604,8 @@ def c07(run):
         with open(scen, "a") as f, open(scen3) as g:
             f.write(g.read())
     else:
-        s = run.seed % 8
-        total, kept = _sample(scen, lambda k, r: k % 8 == s)
+        s = run.seed % 12
+        total, kept = _sample(scen, lambda k, r: k % 12 == s)
         run.extra["quick_sample"] = "%d of %d generated histories" % (kept, total)
     out, info = _drive(run, "manager", verb="replay", sub="replay", extra=["--scen", scen], timeout=3000)
     out2, info2 = _drive(run, "manager", sub="random")
@@ -637,11 +637,319 @@ def sany():
 
 
 def all_u1(ids):
-    return 0
+    """Run every design-level model (no implementation in the loop)."""
+    models = [("MC_Chars", "MC_Chars.cfg"), ("MC_Regex", "MC_Regex.cfg"), ("MC_Literals", "MC_Literals.cfg"),
+              ("MC_Strings", "MC_Strings.cfg"), ("MC_LoopRanges", "MC_LoopRanges.cfg"), ("MC_Dfa", "MC_Dfa.cfg"),
+              ("MC_PartGen", "MC_PartGen.cfg"), ("MC_Builder", "MC_Builder.cfg"), ("MC_Manager", "MC_Manager.cfg")]
+    bad = 0
+    for m, c in models:
+        if ids and m not in ids:
+            continue
+        r = core.run_tlc(m, c, workers=12, timeout=1500)
+        log("[u1] %s: %s, %d distinct states, %.1fs" % (m, "ok" if r.ok else "FAILED", r.distinct, r.wall))
+        if not r.ok:
+            log(r.error[:1500])
+            bad += 1
+    return 2 if bad else 0
+
+
+# ---- selftest: corrupt recorded data, the validator must reject it (DESIGN 4.5) ----
+
+def _flip(rec, path):
+    cur = rec
+    for k in path[:-1]:
+        cur = cur[k]
+    cur[path[-1]] = not cur[path[-1]]
+    return True
+
+
+def _m_products(rec, rnd):
+    if rec.get("op") not in ("dgraph", "dgraph3", "automaton") or len(rec["final"]) < 2:
+        return False
+    # flip the finality of a node that the exploration certainly reaches: the root
+    root = rec["roots"][0]["s"]
+    rec["final"][root - 1] = not rec["final"][root - 1]
+    if "nullable" in rec:
+        pass  # nullable left as logged: the product must notice on its own
+    return True
+
+
+def _m_products_edge(rec, rnd):
+    if rec.get("op") not in ("dgraph", "dgraph3", "automaton"):
+        return False
+    n = len(rec["final"])
+    root = rec["roots"][0]["s"]
+    row = rec["delta"][root - 1]
+    # redirect an edge of the root to a node of different finality, if any
+    for j, t in enumerate(row):
+        for cand in range(1, n + 1):
+            if rec["final"][cand - 1] != rec["final"][t - 1]:
+                row[j] = cand
+                return True
+    return False
+
+
+def _m_mem(rec, rnd):
+    if rec.get("op") != "mem" or not rec["res"]:
+        return False
+    i = rnd.randrange(len(rec["res"]))
+    rec["res"][i] = not rec["res"][i]
+    return True
+
+
+def _m_c03(rec, rnd):
+    if rec.get("op") != "dgraph3":
+        return False
+    cl = rec["cls"][0]
+    for sd in cl["setd"]:
+        if sd["res"] != "ok":
+            sd["res"] = "ok"
+            sd["s"] = 1
+            return True
+    if cl["bad"]:
+        cl["bad"][0]["res"] = "ok"
+        return True
+    return False
+
+
+def _m_field(op, field, fn):
+    def m(rec, rnd):
+        if rec.get("op") != op and rec.get("f") != op:
+            return False
+        rec[field] = fn(rec[field], rec, rnd)
+        return True
+    return m
+
+
+def _m_c06(rec, rnd):
+    if rec.get("op") != "f":
+        return False
+    if "ri" in rec:
+        rec["ri"] += 1
+    elif "rb" in rec:
+        rec["rb"] = not rec["rb"]
+    elif "rs" in rec:
+        rec["rs"] = rec["rs"] + [97]
+    else:
+        return False
+    return True
+
+
+def _m_c07(rec, rnd):
+    ev = rec.get("events", [])
+    mks = [i for i, e in enumerate(ev) if e.get("k") == "mk"]
+    seen = {}
+    for i in mks:
+        key = (ev[i]["api"], tuple(ev[i]["key"]))
+        if key in seen:
+            ev[i]["res"] = ev[i]["res"] + 1000      # a re-issued construction now "returns" another object
+            return True
+        seen[key] = i
+    return False
+
+
+def _m_c08(rec, rnd):
+    if rec.get("op") == "parse" and rec["x"]:
+        rec["prefixes"][-1] = rec["prefixes"][-1] + [65]
+        return True
+    if rec.get("op") == "print" and 92 in rec["s"]:
+        rec["body"] = [92 if c == 92 else c for c in rec["s"]]   # what printing the backslash raw would give
+        return rec["body"] != rec["s"] or True
+    return False
+
+
+def _m_c10(rec, rnd):
+    if rec.get("op") != "replace_re" or not rec["calls"]:
+        return False
+    c = rnd.choice(rec["calls"])
+    c["r"] = c["r"] + [120]
+    return True
+
+
+def _m_c11(rec, rnd):
+    if rec.get("op") != "part" or rec.get("res") != "ok":
+        return False
+    if rec.get("sets") and rnd.random() < 0.5:
+        q = rnd.choice(rec["sets"])
+        q["good"] = not q["good"]
+        return True
+    if rec.get("chars"):
+        q = rnd.choice(rec["chars"])
+        q["cid"] = q["cid"] + 1
+        return True
+    st = rec["steps"][-1]
+    st["nclasses"] += 1
+    return True
+
+
+def _m_c12(rec, rnd):
+    if rec.get("op") == "merge" and len(rec["m"]["ivs"]) >= 1:
+        iv = rec["m"]["ivs"]
+        if len(iv) >= 2 and iv[0][1] + 1 == iv[1][0]:
+            iv[0:2] = [[iv[0][0], iv[1][1]]]          # fuse two adjacent classes: no longer a refinement
+        else:
+            del iv[0]                                  # drop a class: complement no longer the intersection
+        return True
+    return False
+
+
+def _m_c13(rec, rnd):
+    if rec.get("op") != "builder":
+        return False
+    if rec["res"] == "ok":
+        a = rec["aut"]
+        a["final"][0] = not a["final"][0]
+        return True
+    if rec.get("gen_verdict") == "MustReject":
+        return False
+    return False
+
+
+def _m_c13_verdict(rec, rnd):
+    # an accepted MustAccept spec recorded as rejected
+    if rec.get("op") == "builder" and rec["res"] == "ok" and rec.get("gen_verdict") == "MustAccept":
+        rec["res"] = "err:NonDisjointCharSets"
+        for k in ("aut", "str"):
+            rec.pop(k, None)
+        return True
+    return False
+
+
+def _m_c04(rec, rnd):
+    if rec.get("op") != "minimize":
+        return False
+    b = rec["after"]
+    i = b["init"] - 1
+    b["final"][i] = not b["final"][i]
+    return True
+
+
+def _m_c14(rec, rnd):
+    if rec.get("op") != "prune" or "cells" not in rec.get("str", {}):
+        return False
+    cells = rec["str"]["cells"]
+    n = len(cells)
+    if n < 2 or not cells[0]:
+        return False
+    cells[0][0] = cells[0][0] % n + 1
+    return True
+
+
+def _m_c15(rec, rnd):
+    if rec.get("op") == "pair":
+        rec["add"] = [rec["add"][0] + 1, rec["add"][1]] if rec["add"][1] < 0 or rec["add"][0] < rec["add"][1] else [rec["add"][0], rec["add"][1] + 1]
+        return True
+    return False
+
+
+def _m_c16(rec, rnd):
+    if rec.get("op") == "incl" and not rec["res"] and rec["a"].get("k") == "all":
+        rec["res"] = True                # "all included in b" for a b that is not all
+        return rec["b"].get("k") in ("chr", "eps", "rng", "cat")
+    return False
+
+
+def _m_c17(rec, rnd):
+    if rec.get("op") == "ctor" and rec["out"]:
+        rec["out"][0] = 0x30000
+        return True
+    return False
+
+
+def _m_c18(rec, rnd):
+    if rec.get("op") == "start" and rec["res"]:
+        i = rnd.randrange(len(rec["res"]))
+        rec["res"][i] = not rec["res"][i]
+        return True
+    return False
+
+
+def _m_c19(rec, rnd):
+    if rec.get("op") == "closure":
+        rec["compile_ns"] += 1
+        return True
+    return False
+
+
+def _m_c20(rec, rnd):
+    op = rec.get("op")
+    if op in ("inter", "union"):
+        rec["r"] = [] if rec["r"] else list(rec["c"])
+        return True
+    if op == "covers":
+        rec["r"] = not rec["r"]
+        return True
+    return False
+
+
+def _m_c05(rec, rnd):
+    if rec.get("op") == "empty" and rec.get("exact"):
+        rec["empty"] = not rec["empty"]
+        return True
+    return False
+
+
+def _m_c09(rec, rnd):
+    if rec.get("op") == "codes":
+        rec["tc"][len(rec["tc"]) // 2] += 1
+        return True
+    return _m_c06(rec, rnd)
+
+
+SELFTEST = {
+    "C01": [{"c01_products": _m_products, "c01_mem": _m_mem}, {"c01_products": _m_products_edge}],
+    "C02": [{"c02_products": _m_products}, {"c02_products": _m_products_edge}],
+    "C03": [{"c03_products": _m_c03}, {"c03_products": _m_products_edge}],
+    "C04": [{"dfa_minimize": _m_c04, "dfa_random_minimize": _m_c04}],
+    "C05": [{"c05_empty": _m_c05}],
+    "C06": [{"c06_strings": _m_c06}],
+    "C07": [{"manager_hist": _m_c07, "manager_random": _m_c07}],
+    "C08": [{"c08_literals": _m_c08}],
+    "C09": [{"c09_dev": _m_c09, "c09_release": _m_c09}],
+    "C10": [{"c10_replace": _m_c10}],
+    "C11": [{"part_objects": _m_c11, "part_random": _m_c11}],
+    "C12": [{"part_merges": _m_c12, "part_random_merges": _m_c12}],
+    "C13": [{"builder": _m_c13, "builder_random": _m_c13}, {"builder": _m_c13_verdict}],
+    "C14": [{"dfa_prune": _m_c14, "dfa_random_prune": _m_c14}],
+    "C15": [{"loopranges": _m_c15}],
+    "C16": [{"c16_incl": _m_c16}],
+    "C17": [{"c17_ctors": _m_c17}],
+    "C18": [{"c18_start": _m_c18}],
+    "C19": [{"c19_closure": _m_c19}],
+    "C20": [{"charsets": _m_c20}],
+}
 
 
 def selftest(ids, seed):
-    return 0
+    """For each property: re-run the check's drivers, corrupt up to 40 records per stage, and require the TLA+
+    validator to reject at least 90% of the corrupted records (a corruption can occasionally be semantically
+    neutral) -- the demonstration that the specification is bound to what the code did."""
+    bad = 0
+    summary = {}
+    for pid in (ids or sorted(SELFTEST)):
+        for variant in SELFTEST[pid]:
+            run = core.Run(pid, "quick", seed)
+            run.selftest = variant
+            try:
+                CHECKS[pid](run)
+            except ToolError as e:
+                log("TOOL-ERROR in selftest %s: %s" % (pid, e))
+                bad += 1
+            import shutil
+            shutil.rmtree(run.workdir, ignore_errors=True)
+            for r in run.selftest_results:
+                ok = r["tlc_ok"] and r["corrupted"] > 0 and r["rejected"] >= 0.9 * r["corrupted"]
+                summary.setdefault(pid, []).append(dict(r, ok=ok))
+                if not ok:
+                    bad += 1
+                    log("SELFTEST FAILED %s %s" % (pid, json.dumps(r)))
+            if not run.selftest_results:
+                bad += 1
+                log("SELFTEST FAILED %s: no stage exercised" % pid)
+    with open(os.path.join(core.VERIF, "evidence", "selftest.json"), "w") as f:
+        json.dump(summary, f, indent=1)
+    log("[selftest] %s" % ("all corruptions rejected" if not bad else "%d failure(s)" % bad))
+    return 2 if bad else 0
 
 
 def replay(pid, path):
